@@ -215,6 +215,13 @@ def run_case(case, ctx):
         Pih = _sym_fun(P, lambda e: e.rsqrt())
         logdetP = torch.logdet(P)
     At = Pih @ A64 @ Pih
+    # the n-step identity is an exact-arithmetic statement about the matrix CG iterates on: with an ill-conditioned P^-1/2 A P^-1/2 (a
+    # low-rank preconditioner can make things worse than A itself) the finite-precision recurrence needs more than n steps
+    kapt = compare.cond(At)
+    if not kapt <= 1e3:
+        ctx.stat("quadrature_preconditioned_system_ill_conditioned(not judged)")
+        ctx.ok(query + ".logdet_stochastic_unjudged", None, False)
+        return
     logAt = _sym_fun(At, torch.log)
     U = Pih @ Z
     U = U / U.norm(dim=-2, keepdim=True)
